@@ -44,8 +44,9 @@ impl Nested for Orswot<u8, u8> {
     fn name() -> String {
         "Orswot<u8,u8>".into()
     }
-    fn nested_edit(v: &Self, ctx: AddCtx<u8>, e: EditArgs, _aux: &mut Aux) -> (<Self as CmRDT>::Op, String) {
-        let m = idx(e.a, NMEMBERS) as u8;
+    fn nested_edit(v: &Self, ctx: AddCtx<u8>, e: EditArgs, aux: &mut Aux) -> (<Self as CmRDT>::Op, String) {
+        let nmembers = if aux.big { 9 } else { NMEMBERS };
+        let m = if aux.big && e.e % 2 == 1 { idx(e.a, nmembers) as u8 } else { idx(e.a, 2) as u8 };
         let mut kind = set_edit_kind(e.kind, true);
         if e.d % 4 != 0 {
             if kind == 2 && !v.contains(&m).val {
@@ -57,7 +58,7 @@ impl Nested for Orswot<u8, u8> {
         match kind {
             0 => (v.add(m, ctx), format!("set.add({m}, ctx)")),
             1 => {
-                let ms = subset(e.b, NMEMBERS);
+                let ms = subset(e.b, nmembers);
                 (v.add_all(ms.clone(), ctx), format!("set.add_all({ms:?}, ctx)"))
             }
             2 => (v.rm(m, v.contains(&m).derive_rm_ctx()), format!("set.rm({m}, set.contains({m}) ctx)")),
@@ -68,7 +69,7 @@ impl Nested for Orswot<u8, u8> {
                 (v.rm_all(ms.clone(), r.derive_rm_ctx()), format!("set.rm_all({ms:?}, set.read() ctx)"))
             }
             _ => {
-                let ms = subset(e.b, NMEMBERS);
+                let ms = subset(e.b, nmembers);
                 (v.rm_all(ms.clone(), v.read().derive_rm_ctx()), format!("set.rm_all({ms:?}, set.read() ctx)"))
             }
         }
@@ -192,9 +193,19 @@ where
     }
 }
 
-pub struct SMap<N>(PhantomData<N>);
+/// `K` = size of the key alphabet (3 by default; the "big" variants use 12 so that maps hold many entries).
+pub struct SMapK<N, const K: usize>(PhantomData<N>);
+pub type SMap<N> = SMapK<N, 3>;
 
-impl<N: Nested> Subject for SMap<N>
+pub fn pick_key(a: u16, e: u16, n: usize) -> u8 {
+    if n <= 3 || e % 3 == 0 {
+        idx(a, n.min(3)) as u8
+    } else {
+        idx(a, n) as u8
+    }
+}
+
+impl<N: Nested, const K: usize> Subject for SMapK<N, K>
 where
     <N as CmRDT>::Op: Clone + Debug + Serialize + DeserializeOwned + PartialEq,
     N: crdts::map::Val<u8>,
@@ -203,10 +214,12 @@ where
     type Op = MOp<u8, N, u8>;
     const NAME: &'static str = "Map";
     fn name() -> String {
-        format!("Map<u8,{},u8>", N::name())
+        if K == 3 { format!("Map<u8,{},u8>", N::name()) } else { format!("Map<u8,{},u8>[{K} keys]", N::name()) }
     }
     const MERGE: bool = true;
     const NEEDS: Disc = Disc::Fifo;
+    // a map grows by one key per op: the big-alphabet variants need long histories to hold many keys
+    const LONG: u32 = if K > 3 { 35 } else { 4 };
     fn init() -> Self::St {
         Map::new()
     }
@@ -217,7 +230,8 @@ where
         s.merge(o)
     }
     fn edit(s: &Self::St, actor: Option<u8>, e: EditArgs, aux: &mut Aux) -> Option<(Self::Op, Sem, String)> {
-        let k = if aux.wide && e.e % 4 != 0 { 0 } else { idx(e.a, KEYS) as u8 };
+        aux.big = K > 3;
+        let k = if aux.wide && e.e % 4 != 0 { 0 } else { pick_key(e.a, e.e, K) };
         let absent = s.get(&k).val.is_none();
         let want_update = idx(e.kind, 100) < 74 || (absent && e.d % 4 != 0);
         let (op, call) = if want_update && actor.is_some() {
@@ -243,7 +257,7 @@ where
         Some((op, sem, call))
     }
     fn edit_stale_rm(s: &Self::St, old: &Self::St, e: EditArgs) -> Option<(Self::Op, Sem, String)> {
-        let k = idx(e.a, KEYS) as u8;
+        let k = pick_key(e.a, e.e, K);
         let op = s.rm(k, old.get(&k).derive_rm_ctx());
         let sem = map_sem::<N>(&op, 0);
         let call = format!("rm({k}, ctx from an EARLIER get({k}) at this replica) -> {op:?}");
@@ -286,7 +300,7 @@ where
         if it.len() != keys.len() || vals.len() != keys.len() {
             api.push("iter()/values() length differs from keys()".into());
         }
-        let mut all: Vec<u8> = (0..KEYS as u8).collect();
+        let mut all: Vec<u8> = (0..K as u8).collect();
         for k in &key_list {
             if !all.contains(k) {
                 all.push(*k);
@@ -323,7 +337,7 @@ where
     }
     fn predict(metas: &[OpMeta], know: Bits) -> Option<Obs> {
         let ds = dotstore::Store::build(metas, know);
-        Some(dotstore::predict_map(&ds, &N::shape(), KEYS))
+        Some(dotstore::predict_map(&ds, &N::shape(), K))
     }
     fn validate_op(s: &Self::St, op: &Self::Op) -> Result<(), String> {
         s.validate_op(op).map_err(|e| render_map_op_err::<N>(&e))
@@ -349,7 +363,7 @@ where
         probe!("read_ctx".to_string(), None, s.read_ctx());
         probe!("len".to_string(), None, s.len());
         probe!("is_empty".to_string(), None, s.is_empty());
-        for k in 0..KEYS as u8 {
+        for k in 0..K as u8 {
             probe!(format!("get({k})"), Some(format!("key:{k}")), s.get(&k));
         }
         for e in s.keys() {
@@ -377,3 +391,5 @@ pub type MapOrswot = SMap<Orswot<u8, u8>>;
 pub type MapMVReg = SMap<MVReg<u16, u8>>;
 pub type MapMapOrswot = SMap<Map<u8, Orswot<u8, u8>, u8>>;
 pub type MapMapMVReg = SMap<Map<u8, MVReg<u16, u8>, u8>>;
+pub type MapOrswotBig = SMapK<Orswot<u8, u8>, 12>;
+pub type MapMVRegBig = SMapK<MVReg<u16, u8>, 12>;
